@@ -2429,15 +2429,27 @@ static void jdf_generate_ctl_gather_compute(const jdf_t *jdf, const jdf_function
     }
     for(pl = targetf->parameters, le = params; NULL != le; pl = pl->next, le = le->next) {
         if( le->op == JDF_RANGE ) {
+            /* the range can be walked upward or downward, depending on the sign of its increment */
             coutput("%s  {\n"
                     "%s    int %s_%s;\n"
-                    "%s    for(%s_%s  = %s;\n"
-                    "%s        %s_%s <= %s;\n"
-                    "%s        %s_%s += %s) {\n",
+                    "%s    for(%s_%s  = %s;\n",
                     indent(nbopen),
                     indent(nbopen), targetf->fname, pl->name,
-                    indent(nbopen), targetf->fname, pl->name, dump_expr( (void**)le->jdf_ta1, &info1 ),
-                    indent(nbopen), targetf->fname, pl->name, dump_expr( (void**)le->jdf_ta2, &info2 ),
+                    indent(nbopen), targetf->fname, pl->name, dump_expr( (void**)le->jdf_ta1, &info1 ));
+            if( JDF_OP_IS_CST(le->jdf_ta3->op) ) {
+                coutput("%s        %s_%s %s %s;\n",
+                        indent(nbopen), targetf->fname, pl->name,
+                        (le->jdf_ta3->jdf_cst >= 0) ? "<=" : ">=",
+                        dump_expr( (void**)le->jdf_ta2, &info2 ));
+            } else {
+                coutput("%s        ((%s) >= 0)",
+                        indent(nbopen), dump_expr( (void**)le->jdf_ta3, &info3 ));
+                coutput(" ? (%s_%s <= %s)",
+                        targetf->fname, pl->name, dump_expr( (void**)le->jdf_ta2, &info2 ));
+                coutput(" : (%s_%s >= %s);\n",
+                        targetf->fname, pl->name, dump_expr( (void**)le->jdf_ta2, &info2 ));
+            }
+            coutput("%s        %s_%s += %s) {\n",
                     indent(nbopen), targetf->fname, pl->name, dump_expr( (void**)le->jdf_ta3, &info3 ));
             nbopen+=2;
         } else {
@@ -3099,8 +3111,22 @@ static void jdf_generate_startup_tasks(const jdf_t *jdf, const jdf_function_entr
         if(vl->expr->op == JDF_RANGE) {
             coutput("%s  for(this_task->locals.%s.value = %s = %s;\n",
                     indent(nesting), vl->name, vl->name, dump_expr((void**)vl->expr->jdf_ta1, &info1));
-            coutput("%s      this_task->locals.%s.value <= %s;\n",
-                    indent(nesting), vl->name, dump_expr((void**)vl->expr->jdf_ta2, &info1));
+            /* Adapt the loop condition to the sign of the increment, exactly as the
+             * task-counting loop of the internal init does: decreasing execution
+             * spaces are valid and their startup tasks must be generated too. */
+            if( JDF_OP_IS_CST(vl->expr->jdf_ta3->op) ) {
+                coutput("%s      this_task->locals.%s.value %s %s;\n",
+                        indent(nesting), vl->name,
+                        (vl->expr->jdf_ta3->jdf_cst >= 0) ? "<=" : ">=",
+                        dump_expr((void**)vl->expr->jdf_ta2, &info1));
+            } else {
+                coutput("%s      ( ((%s) >= 0)\n",
+                        indent(nesting), dump_expr((void**)vl->expr->jdf_ta3, &info1));
+                coutput("%s        ? (this_task->locals.%s.value <= %s)\n",
+                        indent(nesting), vl->name, dump_expr((void**)vl->expr->jdf_ta2, &info1));
+                coutput("%s        : (this_task->locals.%s.value >= %s) );\n",
+                        indent(nesting), vl->name, dump_expr((void**)vl->expr->jdf_ta2, &info1));
+            }
             coutput("%s      this_task->locals.%s.value += %s, %s = this_task->locals.%s.value) {\n",
                     indent(nesting), vl->name, dump_expr((void**)vl->expr->jdf_ta3, &info1), vl->name, vl->name);
             nesting++;
@@ -7521,8 +7547,21 @@ static char *jdf_dump_context_assignment(string_arena_t *sa_open,
                 string_arena_add_string(sa_open,
                                         "%s%sfor( %s_%s = %s;",
                                         prefix, indent(nbopen), targetf->fname, nl->name, dump_expr((void**)el->jdf_ta1, &local_info));
-                string_arena_add_string(sa_open, "%s_%s <= %s; %s_%s+=",
-                                        targetf->fname, nl->name, dump_expr((void**)el->jdf_ta2, &local_info), targetf->fname, nl->name);
+                /* a range of targets can be walked downward (negative increment) */
+                if( JDF_OP_IS_CST(el->jdf_ta3->op) ) {
+                    string_arena_add_string(sa_open, "%s_%s %s %s; %s_%s+=",
+                                            targetf->fname, nl->name,
+                                            (el->jdf_ta3->jdf_cst >= 0) ? "<=" : ">=",
+                                            dump_expr((void**)el->jdf_ta2, &local_info), targetf->fname, nl->name);
+                } else {
+                    string_arena_add_string(sa_open, "((%s) >= 0)",
+                                            dump_expr((void**)el->jdf_ta3, &local_info));
+                    string_arena_add_string(sa_open, " ? (%s_%s <= %s)",
+                                            targetf->fname, nl->name, dump_expr((void**)el->jdf_ta2, &local_info));
+                    string_arena_add_string(sa_open, " : (%s_%s >= %s); %s_%s+=",
+                                            targetf->fname, nl->name, dump_expr((void**)el->jdf_ta2, &local_info),
+                                            targetf->fname, nl->name);
+                }
                 string_arena_add_string(sa_open, "%s) {\n",
                                         dump_expr((void**)el->jdf_ta3, &local_info));
                 nbopen++;
@@ -7533,14 +7572,43 @@ static char *jdf_dump_context_assignment(string_arena_t *sa_open,
             }
 
             if( vl->expr->op == JDF_RANGE ) {
-                /* This is a place where we consider iterators must be from low to high */
-                string_arena_add_string(sa_open,
-                                        "%s%s  if( (%s_%s >= (%s))",
-                                        prefix, indent(nbopen), targetf->fname, nl->name,
-                                        dump_expr((void**)vl->expr->jdf_ta1, &dest_info));
-                string_arena_add_string(sa_open, " && (%s_%s <= (%s)) ) {\n",
-                                        targetf->fname, nl->name,
-                                        dump_expr((void**)vl->expr->jdf_ta2, &dest_info));
+                /* The iterator space of the target can be increasing or decreasing,
+                 * depending on the sign of its increment (same convention as the
+                 * task-counting loop of the internal init). */
+                if( JDF_OP_IS_CST(vl->expr->jdf_ta3->op) && (vl->expr->jdf_ta3->jdf_cst < 0) ) {
+                    string_arena_add_string(sa_open,
+                                            "%s%s  if( (%s_%s <= (%s))",
+                                            prefix, indent(nbopen), targetf->fname, nl->name,
+                                            dump_expr((void**)vl->expr->jdf_ta1, &dest_info));
+                    string_arena_add_string(sa_open, " && (%s_%s >= (%s)) ) {\n",
+                                            targetf->fname, nl->name,
+                                            dump_expr((void**)vl->expr->jdf_ta2, &dest_info));
+                } else if( JDF_OP_IS_CST(vl->expr->jdf_ta3->op) ) {
+                    string_arena_add_string(sa_open,
+                                            "%s%s  if( (%s_%s >= (%s))",
+                                            prefix, indent(nbopen), targetf->fname, nl->name,
+                                            dump_expr((void**)vl->expr->jdf_ta1, &dest_info));
+                    string_arena_add_string(sa_open, " && (%s_%s <= (%s)) ) {\n",
+                                            targetf->fname, nl->name,
+                                            dump_expr((void**)vl->expr->jdf_ta2, &dest_info));
+                } else {
+                    string_arena_add_string(sa_open,
+                                            "%s%s  if( ((%s) >= 0)",
+                                            prefix, indent(nbopen),
+                                            dump_expr((void**)vl->expr->jdf_ta3, &dest_info));
+                    string_arena_add_string(sa_open, " ? ((%s_%s >= (%s))",
+                                            targetf->fname, nl->name,
+                                            dump_expr((void**)vl->expr->jdf_ta1, &dest_info));
+                    string_arena_add_string(sa_open, " && (%s_%s <= (%s)))",
+                                            targetf->fname, nl->name,
+                                            dump_expr((void**)vl->expr->jdf_ta2, &dest_info));
+                    string_arena_add_string(sa_open, " : ((%s_%s <= (%s))",
+                                            targetf->fname, nl->name,
+                                            dump_expr((void**)vl->expr->jdf_ta1, &dest_info));
+                    string_arena_add_string(sa_open, " && (%s_%s >= (%s))) ) {\n",
+                                            targetf->fname, nl->name,
+                                            dump_expr((void**)vl->expr->jdf_ta2, &dest_info));
+                }
                 nbopen++;
             } else if( NULL != vl->expr->local_variables ) {
                 string_arena_add_string(sa_open, "%s%s  /* We cannot check if %s_%s is within the iterator space, because that space is defined with local indices. We need to trust */\n",
